@@ -4,7 +4,9 @@ Stages (DESIGN section 4): proofs (Props/C13.v) - corpus - correspondence of Mod
 (judge commands 34-36) - oracle on the implementation alone: (a) references / rename / prepareRename against the
 bindings of the generator's derivation (tools/splscope.py), (b) the rename round trip: the WorkspaceEdit of a rename
 to a FRESH name is applied with an independent python edit model, the result is re-opened, its diagnostics and its
-reference partition are compared with the original's, and renaming back must restore the original text."""
+reference partition are compared with the original's, and renaming back must restore the original text; (c) the
+instances of the Coq statement C13_full_statement itself, decided by the extracted model on the generated programs
+(judge command 37).  The witnesses of the four findings repaired by /repo b909979 are regression corpus."""
 import json
 import time
 from concurrent.futures import ThreadPoolExecutor
@@ -16,37 +18,46 @@ import splgen
 PID = "C13"
 METHODS = ["references", "rename", "prepareRename"]
 
-CLASS_DOC = {
-    "C13-local-named-like-its-procedure":
-        "the cursor is on a parameter or local variable (declaration or use) that has the name of its own procedure: "
-        "find_referenced_identifiers compares the name with the context procedure's name first and collects the "
-        "occurrences of the PROCEDURE (header and calls) instead of the variable's",
-    "C13-type-use-shadowed-by-local":
-        "the cursor is on a type identifier inside a parameter or variable declaration of a procedure that has a "
-        "parameter or local variable of the same name: the name is looked up in the local table first and the "
-        "occurrences of the VARIABLE are collected instead of the type's",
-    "C13-rename-predefined-procedure":
-        "the cursor is on a call of a predefined procedure (printi, readi, ...): rename and prepareRename are offered "
-        "(only the spelling `int` is excluded) although there is no declaration to rename - the renamed program calls "
-        "an undefined procedure",
-    "C13-local-named-int":
-        "the cursor is on a parameter or local variable named `int`: rename and prepareRename test the spelling `int` "
-        "and answer null, although the identifier is bound to a user declaration",
-}
+# Decidable classes of known findings (known_findings.jsonl, status "known"), evaluated on the generator's derivation.
+# There is none at present: the four former classes (C13-local-named-like-its-procedure, C13-type-use-shadowed-by-local,
+# C13-rename-predefined-procedure, C13-local-named-int) were repaired by /repo b909979; their witnesses are regression
+# corpus (corpus/C13/*.json), their positions are checked by the oracle and the round trips like all others, and a
+# recurrence is a VIOLATION.  repaired_class names them only to count how often the campaign exercises them.
+CLASS_DOC = {}
 
 
 def classify(d, method, k, o):
+    return None
+
+
+def repaired_class(d, k, o):
     loc = navlib.enclosing_locals(d, o)
     info = d.infos[o["decl"]]
-    if o["kind"] in ("var", "param") and info["kind"] == "proc" and o["name"] == info["name"] and method in ("references", "rename"):
-        return "C13-local-named-like-its-procedure"
+    if o["kind"] in ("var", "param") and info["kind"] == "proc" and o["name"] == info["name"]:
+        return "local-named-like-its-procedure"
     if o["role"] == "type_use" and o["name"] in loc:
-        return "C13-type-use-shadowed-by-local"
-    if o["builtin"] and o["kind"] == "proc" and method in ("rename", "prepareRename"):
-        return "C13-rename-predefined-procedure"
-    if o["kind"] in ("var", "param") and o["name"] == "int" and method in ("rename", "prepareRename"):
-        return "C13-local-named-int"
+        return "type-use-shadowed-by-local"
+    if o["builtin"] and o["kind"] == "proc":
+        return "predefined-procedure"
+    if o["kind"] in ("var", "param") and o["name"] == "int":
+        return "local-named-int"
+    if o["kind"] in ("var", "param") and o["name"] in splgen.BUILTINS:
+        return "local-named-like-a-predefined-procedure"
     return None
+
+
+def repaired_hits(camp):
+    h = {}
+    for d, pts in camp.items:
+        if d.kind != "valid":
+            continue
+        for (l, c, k, what) in pts:
+            o = d.occ_at.get(k) if k is not None else None
+            if o is not None:
+                cid = repaired_class(d, k, o)
+                if cid:
+                    h[cid] = h.get(cid, 0) + 1
+    return dict(sorted(h.items()))
 
 
 # ---- an independent model of applying TextEdits (LSP positions: line, UTF-16 column; LF / CRLF / CR line ends)
@@ -168,22 +179,29 @@ def roundtrip_one(sess, d, uri, k, col, new, tag, known_ids):
 def roundtrips(ctx, exe, camp, per_doc, known_ids, workers=6):
     docs = [(i, d) for i, (d, _) in enumerate(camp.items) if d.kind == "valid" and camp.server[i][0] == []]
     plans = []
+    stats_hot = [0]
     for i, d in docs:
         groups = {}
         for o in d.occs:
             if o["builtin"] or o["bind_tok"] is None:
                 continue
-            if any(classify(d, m, o["tok"], o) for m in ("references", "rename")):
+            if any(classify(d, m, o["tok"], o) in known_ids for m in ("references", "rename")):
                 continue
             groups.setdefault(o["bind_tok"], []).append(o)
         keys = sorted(groups)
         picks = []
-        for key in ctx.rng.sample(keys, min(per_doc, len(keys))):
+        # bindings in the classes of the repaired findings first (a local named like a global, a shadowed type)
+        hot = [key for key in keys if any(repaired_class(d, o["tok"], o) for o in groups[key])]
+        chosen = ctx.rng.sample(hot, min(2, len(hot)))
+        rest = [key for key in keys if key not in chosen]
+        chosen += ctx.rng.sample(rest, min(max(0, per_doc - len(chosen)), len(rest)))
+        stats_hot[0] += sum(1 for key in chosen if key in hot)
+        for key in chosen:
             o = ctx.rng.choice(groups[key])
             a, b = d.spans[o["tok"]]
             picks.append((o["tok"], ctx.rng.randrange(a, b), fresh_name(d, ctx.rng)))
         plans.append((i, d, picks))
-    fails, stats = [], dict(renames=0, requests=0, kinds={})
+    fails, stats = [], dict(renames=0, requests=0, kinds={}, bindings_in_repaired_classes=stats_hot[0])
 
     def work(share):
         out = []
@@ -255,11 +273,22 @@ def run(ctx):
         ctx.violation(f)
         reported += 1
 
+    # ---- oracle (c): the Coq statement itself on the generated programs
+    t0 = time.time()
+    full_stats, full_kernel = ({}, [])
+    if judge and not camp.model_errors:
+        nv = len(ctx.violations)
+        full_stats, full_kernel = navlib.full_statement_instances(
+            ctx, PID, judge, camp, 2, "an instance of C13_full_statement (Spec/Nav.v) is false on the model: references / rename / "
+            "prepareRename differ from spec_references / spec_rename / spec_prepare at this occurrence")
+        reported += len(ctx.violations) - nv
+    t_full = time.time() - t0
+
     # ---- correspondence
     kfail, nk = [], 0
     t0 = time.time()
     if judge and not camp.model_errors:
-        cases = camp.kernel_cases(range(nshort0, len(camp.items)))
+        cases = camp.kernel_cases(range(nshort0, len(camp.items))) + full_kernel
         nk = len(cases)
         try:
             kfail = common.kernel_judge(PID, cases)
@@ -287,7 +316,7 @@ def run(ctx):
         "distinct_nontrivial": len(nontrivial) + rt_stats["renames"],
         "rule": "well-typed programs of tools/splgen.py (variables used inside parenthesised, negated and index expressions, arguments, "
                 "conditions; the same names in different procedures; + cross-reference-rich programs and locals renamed to collide with their "
-                "procedure / a type / another procedure) in random layouts (comment lines in gaps, CRLF, dense), queried with references, "
+                "procedure / a type / `int` / another or a predefined procedure: the classes of the findings repaired by b909979) in random layouts (comment lines in gaps, CRLF, dense), queried with references, "
                 "rename and prepareRename at every column of every identifier occurrence and the column after it (documents > 2600 characters: "
                 "first, last, one random column), one position per other token, gaps, line ends, overshooting positions; damaged programs / "
                 "token soup / random unicode at 10 positions.  Round trips: per valid document 3 (thorough: 6) bindings, renamed at a random "
@@ -300,6 +329,8 @@ def run(ctx):
         "oracle_failures": len(fails),
         "known_finding_hits": {k: len(v) for k, v in sorted(known.items())},
         "known_finding_witness_still_fails": witness_state,
+        "positions_in_repaired_classes": repaired_hits(camp),
+        "full_statement_instances": full_stats,
         "roundtrips": rt_stats,
         "roundtrip_failures": len(rt_fails),
         "traces_validated_against_impl": camp.compared(),
@@ -310,14 +341,15 @@ def run(ctx):
         "requests_not_observed_after_a_crash": camp.unobserved,
         "samples": [dict(text=camp.items[i][0].text[:600], position=list(camp.items[i][1][0][:2]),
                          answers={m: camp.server[i][1][m][0] for m in METHODS}) for i in ctx.rng.sample(range(len(camp.items)), 3)],
-        "timing_s": {"server+model": round(t_run, 1), "roundtrips": round(t_rt, 1), "kernel_judge": round(t_k, 1)},
+        "timing_s": {"server+model": round(t_run, 1), "roundtrips": round(t_rt, 1), "kernel_judge": round(t_k, 1), "full_statement_instances": round(t_full, 1)},
         "explanation": EXPLANATION,
     })
     ctx.assumptions = [
-        "AnalyzedSource::new produces documents satisfying Refs.nav_wf_b (hypothesis of C13_robust and C13_prepare_iff_rename): not proved, "
+        "AnalyzedSource::new produces documents satisfying Refs.nav_wf_b (hypothesis of C13_robust and C13_user_names_renamed): not proved, "
         "evaluated by the judge on every document of every run",
-        "the full functional statement C13_full_statement is refuted on the model for the four known-finding classes and validated by "
-        "correspondence + oracle outside them; C13_roundtrip_statement is validated by the round-trip oracle only",
+        "the full functional statement C13_full_statement is not proved (and, since /repo b909979, no longer refuted: no counterexample is "
+        "known); it is validated by correspondence + oracle + its instances decided by the extracted model (judge command 37); "
+        "C13_roundtrip_statement is validated by the round-trip oracle only",
         "serde/lsp-types JSON mapping trusted; positions are (line, UTF-16 column); a WorkspaceEdit's edits all refer to the original text",
     ]
     if thorough and proved:
@@ -326,19 +358,32 @@ def run(ctx):
 
 
 EXPLANATION = (
-    "level other: Props/C13.v proves, for ALL documents (any text/tokens/tree/table), about the Coq model Model/Refs.v of references.rs: the "
-    "three handlers never fail on a document satisfying the decidable well-formedness predicate nav_wf_b (C13_robust); no identifier token "
-    "under the cursor => null (C13_no_identifier_no_answer); `int` is never renamed (C13_int_not_renamed); every identifier node collected "
-    "for an answer carries the cursor's name (C13_same_name); prepareRename is null exactly when rename is, inside a declaration with a table "
-    "entry (C13_prepare_iff_rename) and otherwise returns the range of the identifier token under the cursor (C13_prepare_range); every "
-    "reference is one of rename's edits (C13_references_in_rename); each edit comes from an identifier node with the cursor's name and is the "
-    "range of a token of the document (C13_rename_edits).  NOT proved: C13_full_statement (references = the other occurrences bound to the "
-    "same declaration, rename = all of them, prepareRename = the occurrence's range, bindings computed from the tree by syntactic role) - it "
-    "is REFUTED on the model by the witnesses of the four known findings - and C13_roundtrip_statement (apply the edits: same diagnostics, "
-    "same binding partition, rename back restores the text), which is stated only.  Outside the known classes both are validated only: by "
-    "the correspondence of the model with the running server (extracted judge on every request, coqc's VM on short documents), by the oracle "
-    "that compares the server with bindings computed from the generator's derivation, and by the round-trip oracle with an independent "
-    "python edit model on the real server.")
+    "level other: Props/C13.v proves, for ALL documents (any text/tokens/tree/table), about the Coq model Model/Refs.v of references.rs as "
+    "of /repo b909979 (the identifier is resolved by its syntactic position: behind `proc`, `type`, `:` or `of` in the global table only, "
+    "elsewhere in the enclosing procedure first; rename and prepareRename refuse what resolves to a predefined entity): the three handlers "
+    "never fail on a document satisfying the decidable well-formedness predicate nav_wf_b (C13_robust); no identifier token under the "
+    "cursor => null (C13_no_identifier_no_answer); an identifier that resolves to a predefined entity is never renamed and - on a "
+    "well-formed document, inside a declaration with a table entry - every other identifier is, e.g. a variable spelled `int` "
+    "(C13_predefined_not_renamed, C13_user_names_renamed; they replace C13_int_not_renamed, whose statement described the repaired defect); "
+    "every identifier node collected for an answer carries the cursor's name (C13_same_name); prepareRename is null exactly when rename is, "
+    "inside a declaration with a table entry, now without any well-formedness hypothesis (C13_prepare_iff_rename); prepareRename null => "
+    "rename null at every position of every document (C13_prepare_null_rename_null); outside every declaration with a table entry - "
+    "impossible in a diagnostic-free program - references and rename are null while prepareRename still answers with the identifier's "
+    "range, because the predefined test needs a context (C13_no_context: the equivalence fails exactly there); prepareRename's answer is "
+    "the range of the identifier token under the cursor, which is not predefined (C13_prepare_range); every reference is one of rename's "
+    "edits (C13_references_in_rename); each edit comes from an identifier node with the cursor's name and is the range of a token of the "
+    "document (C13_rename_edits); in a global position the locals of the enclosing procedure play no role and no variable occurrences are "
+    "collected, elsewhere a local wins whatever else has its name and is not predefined (C13_global_position, C13_local_wins).  NOT "
+    "proved: C13_full_statement (Spec/Nav.v: references = the other occurrences bound to the same declaration, rename = all of them, null "
+    "for predefined entities, prepareRename = the occurrence's range or null, bindings computed from the tree by syntactic role).  It is no "
+    "longer refuted: on the witnesses of the four findings repaired by b909979 (now regression corpus) and on a program with every "
+    "local/global name collision it holds at every occurrence (C13_repaired_witnesses_agree, by vm_compute), and no counterexample is "
+    "known.  C13_roundtrip_statement (apply the edits: same diagnostics, same binding partition, rename back restores the text) is stated "
+    "only.  Both are validated only: by the correspondence of the model with the running server (extracted judge on every request, coqc's "
+    "VM on short documents), by the oracle that compares the server with bindings computed from the generator's derivation, by the "
+    "extracted model deciding the instances of C13_full_statement at every occurrence of the generated programs (judge command 37, which "
+    "also checks that the statement's occurrences are exactly the identifier tokens), and by the round-trip oracle with an independent "
+    "python edit model on the real server (bindings in the repaired classes are picked first).")
 
 
 def replay(ctx, path):
